@@ -57,7 +57,11 @@ def _match_finding(findings, prop, base_id):
 
 def worker(task):
     """Verify one contract and solve its obligations. Returns a picklable summary."""
-    prop, ckey, cname, self_cls_name, tier, findings = task
+    prop, ckey, cname, self_cls_name, tier, findings = task[:6]
+    scale = task[6] if len(task) > 6 else 1
+    if scale > 1:
+        from . import verify as _v
+        _v.FUNC_BUDGET_S = _v.FUNC_BUDGET_S * scale
     import z3
     from .verify import verify_contract, solve
     from .concretise import concretise
@@ -72,7 +76,7 @@ def worker(task):
         rep = verify_contract(eng, c, prop, self_cls=self_cls)
     except Exception:
         return {"key": ckey, "contract": cname, "status": "error", "reason": traceback.format_exc(), "obligations": []}
-    timeout = 6000 if tier == "quick" else 30000
+    timeout = (6000 if tier == "quick" else 30000) * scale
     dump = os.path.join(OUT, "smt", prop)
     obls = []
     for o in rep.obligations:
@@ -167,6 +171,27 @@ def check_property(prop, tier, seed, jobs=16):
                     results.append(f.result(timeout=3000))
                 except Exception:
                     results.append({"key": "?", "status": "error", "reason": traceback.format_exc(), "obligations": []})
+    # ---- second chance, without contention: a function whose symbolic execution ran out of budget, or an obligation
+    # that ended in solver timeouts only (no counter-model), is re-run with a 5x budget, two at a time.  Timeouts on
+    # a busy machine must not become verdicts.
+    def _inconclusive(r):
+        if r.get("status") == "unsupported" and "budget" in str(r.get("reason")):
+            return True
+        for o in r.get("obligations", []):
+            if o["result"] == "failed" and o["role"] in ("plain", "outside") and "sat" not in str(o.get("reason")).replace("unsat", ""):
+                return True
+        return False
+    redo = [i for i, r in enumerate(results) if r.get("status") != "error" and _inconclusive(r)]
+    if redo and not os.environ.get("PYVC_NO_RETRY"):
+        with cf.ProcessPoolExecutor(max_workers=2) as ex:
+            futs = {i: ex.submit(worker, (prop, tasks[i][0], tasks[i][1], tasks[i][2], tier, findings, 5)) for i in redo}
+            for i, f in futs.items():
+                try:
+                    r2 = f.result(timeout=6000)
+                    r2["retried"] = True
+                    results[i] = r2
+                except Exception:
+                    pass
     # ---- data lemmas / property-level lemmas (in process)
     from . import datalemmas
     dl = datalemmas.run(eng, prop, tier)
@@ -381,6 +406,12 @@ def check_property(prop, tier, seed, jobs=16):
         return 3
     if violations:
         return 1
+    if fallbacks:
+        # a function under contract (or the kernel extractor) could not be read by the verifier on this tree: its
+        # obligations were not generated, so the deductive part gives no verdict - neither held nor violated
+        for fb in fallbacks:
+            print(f"UNDECIDED property={prop} function={fb['function']} reason={str(fb['reason'])[:160]}")
+        return 2
     return 0
 
 
